@@ -52,12 +52,12 @@ PROPS["C16"] = {
     "design_ref": "DESIGN.md section 5, C16",
 }
 PROPS["C10"] = {
-    "units": {"verus": ["c10_jubjub_fr", "c10_bls_fq", "c10_bls_fq_consts", "c10_bls_fp_consts"], "kani": ["c10_bytes"]},
+    "units": {"verus": ["c10_jubjub_fr", "c10_bls_fq", "c10_curve25519_fp", "c10_bls_fq_consts", "c10_bls_fp_consts"], "kani": ["c10_bytes"]},
     "scope": "the pure-Rust field code (Jubjub Fr: all limb arithmetic, Montgomery reduction, decoders) and the shipped constants; limb primitives adc/sbb/mac; canonical-encoding predicates of the BLS12-381 fields",
     "not_decided": ["every blst_fr_* / blst_fp_* / blst_fp2/6/12_* routine: the run-time Fq/Fp/Fp2/Fp6/Fp12 arithmetic is C/assembly behind FFI",
                     "Fr::pow, pow_vartime, invert, sqrt (loops / 300-step addition chain over square/mul)",
                     "ff::helpers (Tonelli-Shanks), Bernstein-Yang inversion and Jacobi (ff_ext)", "macro-generated BN254 fields and towers (dev-curves)",
-                    "k256 and curve25519-dalek wrappers (external crates)", "Fp6/Fp12 Rust-level tower formulas"],
+                    "k256 wrapper (external crate); curve25519 Fp: invert / sqrt / pow / from_mont / Sum / Product / lexicographically_largest", "Fp6/Fp12 Rust-level tower formulas"],
     "trusted_base": [],
     "assumptions": [],
     "claim": "Proof for the pure-Rust field code and all shipped constants: every Jubjub Fr limb routine (add, sub, neg, double, mul, square, Montgomery reduction, from_raw) is shown, for ALL limb patterns, to compute the integer operation modulo q over the Montgomery abstraction, with the representation invariant val < q preserved; constants satisfy their defining equations. The blst-backed run-time arithmetic of BLS12-381 Fq/Fp and towers is ASSUMED, not proved.",
